@@ -94,6 +94,15 @@ func CreateCallback(c gocoro.Coroutine[*t_aio.Submission, *t_aio.Completion, any
 									CreatedOn: createdOn,
 								},
 							},
+							{
+								// read the promise again in the same transaction, if the
+								// callback is not created the response must reflect the
+								// promise as it is now
+								Kind: t_aio.ReadPromise,
+								ReadPromise: &t_aio.ReadPromiseCommand{
+									Id: r.CreateCallback.PromiseId,
+								},
+							},
 						},
 					},
 				},
@@ -105,11 +114,26 @@ func CreateCallback(c gocoro.Coroutine[*t_aio.Submission, *t_aio.Completion, any
 			}
 
 			util.Assert(completion.Store != nil, "completion must not be nil")
-			util.Assert(len(completion.Store.Results) == 1, "completion must have one result")
+			util.Assert(len(completion.Store.Results) == 2, "completion must have two results")
 
 			result := completion.Store.Results[0].CreateCallback
 			util.Assert(result != nil, "result must not be nil")
 			util.Assert(result.RowsAffected == 0 || result.RowsAffected == 1, "result must return 0 or 1 rows")
+
+			if result.RowsAffected == 0 {
+				// either the callback already exists or the promise was completed
+				// by another coroutine after we read it, in both cases respond with
+				// the promise as it was when the insert was attempted
+				current := completion.Store.Results[1].ReadPromise
+				util.Assert(current != nil, "result must not be nil")
+				util.Assert(current.RowsReturned == 1, "promise must exist")
+
+				p, err = current.Records[0].Promise()
+				if err != nil {
+					slog.Error("failed to parse promise record", "record", current.Records[0], "err", err)
+					return nil, t_api.NewError(t_api.StatusAIOStoreError, err)
+				}
+			}
 
 			if result.RowsAffected == 1 {
 				status = t_api.StatusCreated
